@@ -242,7 +242,7 @@ func main() {
 			cmd.Env = append(os.Environ(),
 				"VRT_OUT="+outDir, "VRT_SHARD="+fmt.Sprintf("%d/%d", j.k, shards), "VRT_SHARD_TAG="+tag,
 				"VERIF_TIER="+tier, "VRT_DEADLINE_S="+strconv.Itoa(deadline), "VERIF_SEED="+strconv.Itoa(seed),
-				"GOMAXPROCS="+strconv.Itoa(gmp), "VRT_REPLAY="+replay, "VRT_SCRATCH="+scratch, "TMPDIR="+scratch)
+				"GOMAXPROCS="+strconv.Itoa(gmp), "VRT_REPLAY="+replay, "VRT_KNOWN_FILE="+filepath.Join(vdir, "known_findings.json"), "VRT_PROPERTY="+id, "VRT_SCRATCH="+scratch, "TMPDIR="+scratch)
 			b, err := cmd.CombinedOutput()
 			logMu.Lock()
 			defer logMu.Unlock()
